@@ -310,6 +310,9 @@ pub fn by_family(fam: &str, seed: u64) -> Scenario {
         "mutateB" => mutate_b(seed),
         "rstRaceBc" => rst_race_bc(seed),
         "pushRaceBs" => push_race_bs(seed),
+        "pushRaceBc" => push_race_bc(seed),
+        "cancelA" => cancel_a(seed),
+        "capWaitBc" => cap_wait_bc(seed),
         _ => mix_a(seed, false),
     }
 }
@@ -1743,5 +1746,301 @@ pub fn push_race_bs(seed: u64) -> Scenario {
         steps.push(PeerStep::WaitQ);
     }
     s.peer = steps;
+    s
+}
+
+// ---------------------------------------------------------------------------
+// Mode Bc, the mirror image: a scripted server pushes on requests that the real client is cancelling at that very moment
+// (ResponseFuture dropped => RST_STREAM(CANCEL) scheduled, perhaps not even written yet), with a small memory of reset
+// streams (max_concurrent_reset_streams 0 / 1 / default), so that the parent is sometimes already forgotten when the
+// PUSH_PROMISE arrives. RFC 9113 6.6: an endpoint that reset the associated stream MUST handle such PUSH_PROMISE frames;
+// the promised stream is refused with RST_STREAM, the connection lives on and the other requests complete.
+pub fn push_race_bc(seed: u64) -> Scenario {
+    let mut rng = StdRng::seed_from_u64(seed ^ 0x9054_BCE);
+    let mut s = Scenario::default();
+    s.name = format!("pushRaceBc-{}", seed);
+    s.mode = "Bc".into();
+    s.sched.seed = seed;
+    s.aims = vec!["C09".into()];
+    s.peer_cfg.ack_settings = true;
+    s.peer_cfg.ack_ping = true;
+    s.peer_cfg.grant = "all".into();
+    s.peer_cfg.respond = false;
+    s.ccfg.enable_push = Some(true);
+    match rng.gen_range(0..3) {
+        0 => s.ccfg.reset_max = Some(0),
+        1 => s.ccfg.reset_max = Some(1),
+        _ => {}
+    }
+    let nreq = rng.gen_range(1..4u32);
+    let resp = |sid: u32, status: u16, eos: bool| PeerStep::Headers { sid, hid: 0, fields: vec![], eos, frag: 0, huff: false, status, req: false, method: String::new(), tag: 0 };
+    let mut acts: Vec<(usize, PeerStep)> = vec![];
+    let mut prom = 2u32;
+    for i in 0..nreq {
+        let sid = 1 + 2 * i;
+        let mut r = ReqProg::default();
+        r.tag = i + 1;
+        r.ready = true;
+        r.eos = true;
+        r.method = "GET".into();
+        let cancel = rng.gen_bool(0.7);
+        let kdrop = rng.gen_range(2..6);
+        r.read = if cancel { ReadPol { drop_head: true, start_q: Some(kdrop), ..ReadPol::default() } } else { ReadPol { push: true, ..ReadPol::default() } };
+        s.reqs.push(r);
+        // the server promises on this request around the moment it is cancelled, then fulfils / resets the promise and answers
+        let kp = if cancel { (kdrop as i64 + rng.gen_range(-1..3)).max(2) as usize } else { rng.gen_range(2..6) };
+        let np = rng.gen_range(1..3);
+        for _ in 0..np {
+            acts.push((kp, PeerStep::PushPromise { sid, promised: prom, hid: 0, fields: vec![], frag: 0, tag: 100 + prom }));
+            match rng.gen_range(0..3) {
+                0 => acts.push((kp + rng.gen_range(0..2), resp(prom, 200, true))),
+                1 => {
+                    acts.push((kp + rng.gen_range(0..2), resp(prom, 200, false)));
+                    acts.push((kp + 1, PeerStep::Data { sid: prom, n: pick(&mut rng, &[0usize, 7, 2000]), eos: true, pad: None }));
+                }
+                _ => {}
+            }
+            prom += 2;
+        }
+        acts.push((kp + rng.gen_range(0..3), resp(sid, 200, true)));
+    }
+    let mut steps = vec![PeerStep::WaitQ];
+    for q in 2..10 {
+        steps.push(PeerStep::WaitQ);
+        for (at, st) in acts.iter() {
+            if *at == q {
+                steps.push(st.clone());
+            }
+        }
+    }
+    for _ in 0..4 {
+        steps.push(PeerStep::WaitQ);
+    }
+    s.peer = steps;
+    s.drop_sr_when_done = true;
+    s
+}
+
+// ---------------------------------------------------------------------------
+// Mode A, cooperative: streams are abandoned with WORK STILL QUEUED - DATA buffered (capacity assigned, not yet written),
+// capacity reserved, a response half sent - by dropping the LAST handle (implicit RST_STREAM(CANCEL)) or by an explicit
+// reset, the other handle going just before / together with / just after it, on the client (request bodies) or on the
+// server (response bodies). Afterwards a witness exchange moves more than a whole connection window in both directions
+// and must complete (C06), and when everything is gone the flow-control bookkeeping and the store are back to their
+// idle values (C19.flow_idle, C19.slab_idle, C16.pool, C03 leak rules).
+pub fn cancel_a(seed: u64) -> Scenario {
+    let mut rng = StdRng::seed_from_u64(seed ^ 0xCA9CE1);
+    let mut s = Scenario::default();
+    s.name = format!("cancelA-{}", seed);
+    s.mode = "A".into();
+    s.sched.seed = seed;
+    s.aims = vec!["C19".into(), "C16".into(), "C06".into()];
+    if rng.gen_bool(0.3) {
+        s.ccfg.iws = Some(pick(&mut rng, &[1000u32, 16384, 100000]));
+        s.scfg.iws = Some(pick(&mut rng, &[1000u32, 16384, 100000]));
+    }
+    if rng.gen_bool(0.3) {
+        s.ccfg.reset_max = Some(pick(&mut rng, &[0usize, 1]));
+        s.scfg.reset_max = Some(pick(&mut rng, &[0usize, 1]));
+    }
+    if rng.gen_bool(0.3) {
+        let ep = rng.gen_range(0..2);
+        s.io.wmax[ep] = pick(&mut rng, &[100usize, 1000, 16384]);
+    }
+    let nv = rng.gen_range(1..4usize);
+    let on_server = rng.gen_bool(0.4);
+    let amounts = [1usize, 1000, 16384, 20000, 40000, 70000];
+    for i in 0..nv {
+        let mut r = ReqProg::default();
+        r.tag = i as u32 + 1;
+        r.ready = true;
+        r.start_q = if i == 0 { None } else { Some(i) };
+        let q0 = i + 1; // by then the HEADERS are written and the stream is open
+        if on_server {
+            r.method = "GET".into();
+            r.eos = true;
+            r.read = ReadPol::default();
+            // the server answers, queues DATA and lets go of everything; the request body handle goes first / last
+            let mut ops = vec![SendOp::Response { status: 200, hid: 0, eos: false }];
+            if rng.gen_bool(0.4) {
+                ops.push(SendOp::WaitQ { k: q0 + 1 });
+            }
+            match rng.gen_range(0..4) {
+                0 => ops.push(SendOp::Data { n: pick(&mut rng, &amounts), eos: false }),
+                1 => ops.push(SendOp::Reserve { n: pick(&mut rng, &amounts) }),
+                2 => {
+                    ops.push(SendOp::DataCap { n: pick(&mut rng, &amounts), eos: false });
+                    ops.push(SendOp::Data { n: pick(&mut rng, &amounts), eos: false });
+                }
+                _ => {
+                    ops.push(SendOp::Data { n: pick(&mut rng, &amounts), eos: false });
+                    ops.push(SendOp::Reset { code: pick(&mut rng, &[8u32, 2, 0]) });
+                }
+            }
+            ops.push(SendOp::Drop);
+            let read = if rng.gen_bool(0.6) { ReadPol { max_chunks: Some(0), ..ReadPol::default() } } else { ReadPol { hold_q: Some(q0 + rng.gen_range(1..3)), ..ReadPol::default() } };
+            s.srv.push(SrvProg { ops, read, note: String::new() });
+        } else {
+            r.method = "POST".into();
+            let kd = q0 + rng.gen_range(0..3); // the ResponseFuture goes at this quiescence
+            r.read = ReadPol { drop_head: true, start_q: Some(kd), ..ReadPol::default() };
+            let kw = (kd as i64 + rng.gen_range(-1..2)).max(q0 as i64) as usize; // the writer leaves around it
+            let mut ops = vec![SendOp::WaitQ { k: q0 }];
+            if rng.gen_bool(0.4) {
+                ops.push(SendOp::Data { n: pick(&mut rng, &[1usize, 1000, 20000]), eos: false });
+            }
+            ops.push(SendOp::WaitQ { k: kw });
+            match rng.gen_range(0..4) {
+                0 => ops.push(SendOp::Data { n: pick(&mut rng, &amounts), eos: false }),
+                1 => ops.push(SendOp::Reserve { n: pick(&mut rng, &amounts) }),
+                2 => {
+                    ops.push(SendOp::DataCap { n: pick(&mut rng, &amounts), eos: false });
+                    ops.push(SendOp::Data { n: pick(&mut rng, &amounts), eos: false });
+                }
+                _ => {
+                    ops.push(SendOp::Data { n: pick(&mut rng, &amounts), eos: false });
+                    ops.push(SendOp::Reset { code: pick(&mut rng, &[8u32, 2, 0]) });
+                }
+            }
+            ops.push(SendOp::Drop);
+            r.ops = ops;
+            // the server reads what arrives and answers when (if) the request ends
+            s.srv.push(SrvProg { ops: vec![SendOp::WaitQ { k: q0 + 1 }, SendOp::Response { status: 200, hid: 0, eos: true }], read: ReadPol::default(), note: String::new() });
+        }
+        s.reqs.push(r);
+    }
+    // the witness: more than a connection window in each direction, after the victims are gone
+    let mut w = ReqProg::default();
+    w.tag = nv as u32 + 1;
+    w.ready = true;
+    w.method = "POST".into();
+    w.start_q = Some(nv + 5);
+    w.ops = vec![SendOp::DataCap { n: pick(&mut rng, &[66000usize, 70000, 140000]), eos: true }];
+    w.read = ReadPol::default();
+    s.reqs.push(w);
+    s.srv.push(SrvProg { ops: vec![SendOp::Response { status: 200, hid: 0, eos: false }, SendOp::DataCap { n: pick(&mut rng, &[66000usize, 70000, 140000]), eos: true }], read: ReadPol::default(), note: String::new() });
+    s.env.push(EnvStep { at: "q".into(), n: (nv + 4) as u64, op: EnvOp::Census });
+    s.drop_sr_when_done = true;
+    s.sched.then = pick(&mut rng, &["random", "random", "fifo", "lifo"]).to_string();
+    s.coop = true;
+    s
+}
+
+// ---------------------------------------------------------------------------
+// Mode Bc, cooperative in the end: the ways a writer comes to wait in poll_capacity with the "capacity changed" flag
+// still set from an earlier grant that it consumed WITHOUT polling (hyper's pattern: reserve, read capacity(), send_data,
+// reserve again, poll_capacity with the window used up), or that a SETTINGS frame took away again before the woken task
+// ran, or that reserve(0) gave back. The grant that follows must wake it (C06 / C16.wait_woken); finally the peer opens
+// every window and everything must complete.
+pub fn cap_wait_bc(seed: u64) -> Scenario {
+    let mut rng = StdRng::seed_from_u64(seed ^ 0xCA9_3A17);
+    let mut s = Scenario::default();
+    s.name = format!("capWaitBc-{}", seed);
+    s.mode = "Bc".into();
+    s.sched.seed = seed;
+    s.aims = vec!["C06".into(), "C16".into()];
+    let w0 = pick(&mut rng, &[10u32, 100, 5000, 16384, 65535]);
+    s.peer_cfg.settings = vec![(4, w0)];
+    s.peer_cfg.ack_settings = true;
+    s.peer_cfg.ack_ping = true;
+    s.peer_cfg.grant = "none".into();
+    s.peer_cfg.respond = true;
+    let variant = rng.gen_range(0..4);
+    let nreq = if variant == 2 { 2 } else { rng.gen_range(1..3) };
+    let more = pick(&mut rng, &[1usize, 7, 3000]);
+    for i in 0..nreq {
+        let mut r = ReqProg::default();
+        r.tag = i as u32 + 1;
+        r.ready = true;
+        r.method = "POST".into();
+        r.start_q = if i == 0 { None } else { Some(1) };
+        let mut ops = vec![SendOp::WaitQ { k: 1 }];
+        match variant {
+            0 => {
+                // granted at once, consumed without polling, then waits with the stream window used up
+                ops.push(SendOp::Reserve { n: w0 as usize });
+                ops.push(SendOp::Cap);
+                ops.push(SendOp::Data { n: w0 as usize, eos: false });
+                ops.push(SendOp::Reserve { n: more });
+                ops.push(SendOp::PollCap);
+                ops.push(SendOp::SendCap { eos: true });
+            }
+            1 => {
+                // waits properly with nothing available; the peer grants and takes back in one batch, then grants again
+                ops.push(SendOp::Data { n: w0 as usize, eos: false });
+                ops.push(SendOp::Reserve { n: more });
+                ops.push(SendOp::PollCap);
+                ops.push(SendOp::SendCap { eos: true });
+            }
+            2 => {
+                // the other stream holds the whole connection window; reserve / un-reserve / reserve, then wait
+                if i == 0 {
+                    ops.push(SendOp::Reserve { n: 65535 });
+                    ops.push(SendOp::WaitQ { k: 4 });
+                    ops.push(SendOp::Reserve { n: 0 });
+                    ops.push(SendOp::Data { n: 0, eos: true });
+                } else {
+                    ops.push(SendOp::WaitQ { k: 2 });
+                    ops.push(SendOp::Reserve { n: more });
+                    ops.push(SendOp::Reserve { n: 0 });
+                    ops.push(SendOp::Reserve { n: more });
+                    ops.push(SendOp::PollCap);
+                    ops.push(SendOp::SendCap { eos: true });
+                }
+            }
+            _ => {
+                // two rounds of the first pattern
+                for _ in 0..2 {
+                    ops.push(SendOp::Reserve { n: more });
+                    ops.push(SendOp::PollCap);
+                    ops.push(SendOp::Cap);
+                    ops.push(SendOp::SendCap { eos: false });
+                }
+                ops.push(SendOp::Data { n: 0, eos: true });
+            }
+        }
+        r.ops = ops;
+        s.reqs.push(r);
+    }
+    let mut steps = vec![PeerStep::WaitQ, PeerStep::WaitQ, PeerStep::WaitQ];
+    match variant {
+        0 | 3 => {
+            for i in 0..nreq {
+                steps.push(PeerStep::Wu { sid: 1 + 2 * i as u32, inc: pick(&mut rng, &[1u32, 100, 70000]) });
+            }
+            steps.push(PeerStep::Wu { sid: 0, inc: 70000 });
+        }
+        1 => {
+            for i in 0..nreq {
+                steps.push(PeerStep::Wu { sid: 1 + 2 * i as u32, inc: 5 });
+            }
+            steps.push(PeerStep::Wu { sid: 0, inc: 70000 });
+            steps.push(PeerStep::Settings { vals: vec![(4, w0 - 5)] });
+            steps.push(PeerStep::WaitQ);
+            steps.push(PeerStep::WaitQ);
+            for i in 0..nreq {
+                steps.push(PeerStep::Wu { sid: 1 + 2 * i as u32, inc: pick(&mut rng, &[6u32, 100, 70000]) });
+            }
+        }
+        _ => {
+            steps.push(PeerStep::WaitQ);
+            steps.push(PeerStep::WaitQ);
+        }
+    }
+    for _ in 0..3 {
+        steps.push(PeerStep::WaitQ);
+    }
+    steps.push(PeerStep::Settings { vals: vec![(4, 1 << 20)] });
+    steps.push(PeerStep::Auto { ack_settings: None, ack_ping: None, grant: Some("all".into()), respond: None });
+    steps.push(PeerStep::Wu { sid: 0, inc: 1 << 20 });
+    for _ in 0..3 {
+        steps.push(PeerStep::WaitQ);
+    }
+    s.peer = steps;
+    for q in 2..7 {
+        s.env.push(EnvStep { at: "q".into(), n: q, op: EnvOp::Census });
+    }
+    s.drop_sr_when_done = true;
+    s.coop = true;
     s
 }
